@@ -66,13 +66,33 @@ def gen_cells(rs: Stream, n: int, contact_mix: Tuple[float, float, float]) -> Li
     return cells
 
 
+def gen_path(rs: Stream, n: int, p_turn: float) -> List[Tuple[int, int, int]]:
+    """a self-avoiding walk of face-connected cells: long propagation chains"""
+    cells = [(0, 0, 0)]
+    d = rs.pick(FACE_DIRS)
+    tries = 0
+    while len(cells) < n and tries < 100:
+        tries += 1
+        if rs.chance(p_turn):
+            d = rs.pick(FACE_DIRS)
+        c = (cells[-1][0] + d[0], cells[-1][1] + d[1], cells[-1][2] + d[2])
+        if c in cells:
+            d = rs.pick(FACE_DIRS)
+            continue
+        cells.append(c)
+    return cells
+
+
 def gen_assembly(rs: Stream, opts: Dict[str, Any]) -> Dict[str, Any]:
     """Geometric description, independent of numbering/add order:
     cells, jittered node table, curved edges, chops per (cell, canonical axis)."""
     n = rs.weighted([(2, 2), (3, 3), (4, 4), (5, 3), (6, 2), (7, 1), (8, 1)])
     n = min(n, opts.get("max_blocks", 8))
     mix = rs.pick([(1.0, 0.0, 0.0), (0.8, 0.15, 0.05), (0.6, 0.3, 0.1)])
-    cells = gen_cells(rs, n, mix)
+    if rs.chance(opts.get("p_path", 0.0)):
+        cells = gen_path(rs, max(n, 3), rs.pick([0.0, 0.2, 0.5]))
+    else:
+        cells = gen_cells(rs, n, mix)
     jit = rs.pick(opts.get("jitters", [0.0, 0.05, 0.15]))
     spacing = [rs.uniform(0.6, 1.8) for _ in range(3)] if rs.chance(0.6) else [1.0, 1.0, 1.0]
     points: Dict[str, List[float]] = {}
@@ -120,6 +140,8 @@ def place_chops(rs: Stream, geo: Dict[str, Any], opts: Dict[str, Any]) -> Dict[s
         if others:
             skip = {rs.pick(others)}
     chops = []
+    # per program: mostly single-source families (long propagation chains) or mostly multi-source
+    p_multi = opts.get("p_multi_source", 0.5) if rs.chance(0.6) else 0.1
     meta = {"category": category, "families": len(roots), "multi_source": 0, "diff_expansion": 0, "size_based": 0,
             "preserve": 0, "multi_section": 0, "adjacent_conflict": 0}
     for r in roots:
@@ -155,7 +177,7 @@ def place_chops(rs: Stream, geo: Dict[str, Any], opts: Dict[str, Any]) -> Dict[s
                 chops.append({"block": refblocks[bi].name, "axis": a, "sections": [_explicit_chop(rs, n1, lmin, plain=True)]})
             continue
         nsrc = 1
-        if len(members) >= 2 and rs.chance(opts.get("p_multi_source", 0.5)):
+        if len(members) >= 2 and rs.chance(p_multi):
             nsrc = min(len(members), rs.pick([2, 2, 3]))
         srcs = rs.shuffled(members)[:nsrc]
         if nsrc == 1:
@@ -246,6 +268,79 @@ def _multi_chop(rs: Stream, lmin: float) -> List[Dict[str, Any]]:
         sec["length_ratio"] = f
         out.append(sec)
     return out
+
+
+def _perp(axis):
+    ref = [1.0, 0.0, 0.0] if abs(axis[0]) < 0.8 else [0.0, 1.0, 0.0]
+    v = [axis[1] * ref[2] - axis[2] * ref[1], axis[2] * ref[0] - axis[0] * ref[2], axis[0] * ref[1] - axis[1] * ref[0]]
+    n = math.sqrt(sum(x * x for x in v))
+    return [x / n for x in v]
+
+
+def gen_shape_program(rs: Stream, cfg_seed: int) -> Dict[str, Any]:
+    """Realistic curved topologies built by the library's own shapes; the reference model
+    judges them from the operations' points and chops read before assembly."""
+    kind = rs.pick(["cylinder", "frustum", "ring", "hemisphere", "cyl_cyl", "cyl_ring", "cyl_hemi", "cyl_frustum", "ring_ring"])
+    o = [round(rs.uniform(-3, 3), 3) for _ in range(3)]
+    ax = [rs.uniform(-1, 1) for _ in range(3)]
+    n = math.sqrt(sum(x * x for x in ax)) or 1.0
+    ax = [x / n for x in ax] if rs.chance(0.6) else [0.0, 0.0, 1.0]
+    L = rs.uniform(0.8, 2.5)
+    R = rs.uniform(0.5, 1.5)
+    pr = _perp(ax)
+    p2 = [o[i] + L * ax[i] for i in range(3)]
+    rp = [o[i] + R * pr[i] for i in range(3)]
+    ops: List[Dict[str, Any]] = []
+    shapes: List[str] = ["s0"]
+    if kind in ("cylinder", "cyl_cyl", "cyl_ring", "cyl_hemi", "cyl_frustum"):
+        ops.append({"op": "shape", "name": "s0", "kind": "cylinder", "args": {"p1": o, "p2": p2, "r": rp}})
+    elif kind == "frustum":
+        ops.append({"op": "shape", "name": "s0", "kind": "frustum", "args": {"p1": o, "p2": p2, "r1": rp, "r2": R * rs.uniform(0.4, 0.9)}})
+    elif kind in ("ring", "ring_ring"):
+        ops.append({"op": "shape", "name": "s0", "kind": "ring", "args": {"p1": o, "p2": p2, "r_out": rp, "r_in": R * rs.uniform(0.3, 0.7), "n": rs.pick([4, 5, 8])}})
+    elif kind == "hemisphere":
+        ops.append({"op": "shape", "name": "s0", "kind": "hemisphere", "args": {"c": o, "r": rp, "n": ax}})
+    if kind == "cyl_cyl":
+        ops.append({"op": "chain", "name": "s1", "source": "s0", "kind": "cylinder", "args": {"length": rs.uniform(0.5, 2), "start_face": rs.chance(0.3)}})
+        shapes.append("s1")
+    elif kind == "cyl_ring":
+        ops.append({"op": "chain", "name": "s1", "source": "s0", "kind": "ring_expand", "args": {"thickness": rs.uniform(0.2, 0.8)}})
+        shapes.append("s1")
+    elif kind == "cyl_hemi":
+        ops.append({"op": "chain", "name": "s1", "source": "s0", "kind": "hemisphere", "args": {"start_face": rs.chance(0.3)}})
+        shapes.append("s1")
+    elif kind == "cyl_frustum":
+        ops.append({"op": "chain", "name": "s1", "source": "s0", "kind": "frustum", "args": {"length": rs.uniform(0.5, 1.5), "r2": R * rs.uniform(0.4, 0.9)}})
+        shapes.append("s1")
+    elif kind == "ring_ring":
+        ops.append({"op": "chain", "name": "s1", "source": "s0", "kind": "ring_chain", "args": {"length": rs.uniform(0.5, 1.5)}})
+        shapes.append("s1")
+    base = {w: rs.randint(2, 6) for w in ("axial", "radial", "tangential")}
+    mode = rs.weighted([("complete", 5), ("omit", 3), ("conflict", 2)])
+    for si, sn in enumerate(shapes):
+        for w in ("axial", "radial", "tangential"):
+            c = base[w]
+            if si == 1:
+                # the second shape shares some families with the first: repeat, omit or contradict
+                choice = rs.weighted([("repeat", 3), ("omit", 4), ("other", 2 if mode == "conflict" else 0)])
+                if w == "axial":
+                    choice = "repeat" if choice == "omit" and mode != "omit" else choice
+                if choice == "omit":
+                    continue
+                if choice == "other":
+                    c = c + rs.pick([1, 2])
+            elif mode == "omit" and rs.chance(0.35):
+                continue
+            args: Dict[str, Any] = {"count": c}
+            if rs.chance(0.3):
+                args["c2c_expansion"] = round(rs.uniform(0.9, 1.15), 3)
+            ops.append({"op": "shape_chop", "target": sn, "which": w, "args": args})
+    cs = Stream(cfg_seed, "config", "shapes")
+    for sn in cs.shuffled(shapes):
+        ops.append({"op": "add", "target": sn})
+    ops.append({"op": "assemble"})
+    ops.append({"op": "write", "path": DICT_PATH, "debug": VTK_PATH})
+    return {"points": {}, "ops": ops, "meta": {"shapes": kind, "category": mode, "cfg_seed": cfg_seed}}
 
 
 def add_curved(rs: Stream, geo: Dict[str, Any], opts: Dict[str, Any]) -> Dict[str, Any]:
@@ -424,6 +519,7 @@ class RunResult:
         self.log_digest = ""
         self.block_names: List[str] = []
         self.live: Optional[Dict[str, Any]] = None  # snapshot of counts from live objects
+        self.snapshot: Optional[List[Tuple[str, List[List[float]], Dict[int, List[Dict[str, Any]]]]]] = None
 
 
 def label_mesh(world: seams.World, mesh, names: List[str]) -> None:
@@ -460,7 +556,7 @@ def run_once(program: Dict[str, Any], sched: Dict[str, Any], pre_files: Optional
     def block_copy(self):
         res.copy_calls += 1
         if res.copy_calls > res.budget:
-            raise seams.SimLivelock(f"copy_grading called {res.copy_calls} times for {n_blocks} blocks (budget {res.budget})")
+            raise seams.SimLivelock(f"copy_grading called {res.copy_calls} times for {len(it.mesh.blocks)} blocks (budget {res.budget})")
         return orig_block_copy(self)
 
     def axis_copy(self):
@@ -484,12 +580,21 @@ def run_once(program: Dict[str, Any], sched: Dict[str, Any], pre_files: Optional
     undo = [seams.patch_attr(Block, "copy_grading", block_copy), seams.patch_attr(Axis, "copy_grading", axis_copy)]
     it = Interp(program)
 
+    def before(i, op):
+        if op["op"] == "assemble" and program.get("meta", {}).get("shapes"):
+            res.snapshot = snapshot_ops(it)
+
     def after(i, op):
         if op["op"] == "assemble":
             names = [n for n in it.added]
+            if res.snapshot is not None:
+                names = [x[0] for x in res.snapshot]
             res.block_names = names
+            nb = len(it.mesh.blocks)
+            res.budget = 8 * nb * nb + 16
             label_mesh(world, it.mesh, names)
 
+    it.hooks["before"] = before
     it.hooks["after"] = after
     try:
         with seams.run_world(world):
@@ -521,6 +626,44 @@ def run_once(program: Dict[str, Any], sched: Dict[str, Any], pre_files: Optional
     world.event("outcome", res.outcome, {k: digest(v) for k, v in sorted(res.files.items())})
     res.log_digest = digest(world.log)
     return res
+
+
+def snapshot_ops(it: Interp):
+    """Input-side read for shape-built programs: every non-deleted operation (flattened, in
+    add order) with its eight points and the chops placed on it, before assembly."""
+    import dataclasses
+
+    out = []
+    deleted = it.mesh.deleted
+    for nme in it.added:
+        ent = it.env[nme]
+        opers = [ent] if not hasattr(ent, "operations") else list(ent.operations)
+        for j, o in enumerate(opers):
+            if o in deleted:
+                continue
+            chops = {}
+            for a in (0, 1, 2):
+                lst = []
+                for ch in o.chops[a]:
+                    d = {k: v for k, v in dataclasses.asdict(ch).items() if v is not None and k != "results"}
+                    lst.append(d)
+                chops[a] = lst
+            label = nme if len(opers) == 1 and not hasattr(ent, "operations") else f"{nme}[{j}]"
+            out.append((label, [[float(x) for x in p] for p in o.point_array], chops))
+    return out
+
+
+def assembly_from_snapshot(snap) -> Tuple[models.Assembly, List[str]]:
+    allpos = []
+    for (_, pts, _) in snap:
+        allpos += pts
+    ids = models.cluster_points(allpos, tol=1e-6)
+    blocks = []
+    k = 0
+    for (label, pts, chops) in snap:
+        blocks.append(models.RefBlock(label, ids[k:k + 8], chops))
+        k += 8
+    return models.Assembly(blocks), [b.name for b in blocks]
 
 
 def snapshot_live(mesh) -> Dict[str, Any]:
@@ -734,14 +877,23 @@ def oracle_sizes(program, asm: models.Assembly, names, verdict, res: RunResult, 
                 canon = sizes if fwd else list(reversed(sizes))
                 per_edge.setdefault(frozenset((p, q)), []).append((names[bi], a, k, canon, fwd))
     fams = asm.families()
-    incompatible_roots = {root for root in fams if not family_compatible(asm, verdict.sources.get(root, []))}
+    name_index = {n: i for i, n in enumerate(names)}
     for key, users in per_edge.items():
         if len(users) < 2:
             continue
-        bi0 = names.index(users[0][0])
-        if asm.family_of(bi0, users[0][1])[0] in incompatible_roots:
+        # an edge that two chopped directions own with different demands cannot satisfy both:
+        # nothing is demanded there; every other shared edge must agree (a chop-less block
+        # between two differently graded neighbours is written with edgeGrading)
+        src_users = []
+        for u in users:
+            bi = name_index[u[0]]
+            if asm.blocks[bi].chops[u[1]]:
+                src_users.append((bi, u[1], asm.family_of(bi, u[1])[1]))
+        if len(src_users) >= 2 and not family_compatible(asm, src_users):
             stats["incompatible_demands_skipped"] = stats.get("incompatible_demands_skipped", 0) + 1
             continue
+        if len(verdict.sources.get(asm.family_of(name_index[users[0][0]], users[0][1])[0], [])) >= 2:
+            stats["multi_source_edges_compared"] = stats.get("multi_source_edges_compared", 0) + 1
         L = elen[key]
         stats["shared_edges_compared"] += 1
         if len({u[4] for u in users}) > 1:
